@@ -2,7 +2,7 @@ CONSTANTS
   Dev = {}
   Scenario = "reply"
   MaxOps = 4
-  CompSet = {"none", "static", "tree", "hash"}
+  CompSet = {"none", "hash"}
   TgtSet = {"array", "sarray"}
 SPECIFICATION Spec
 INVARIANT ParseBack
